@@ -3,6 +3,7 @@ package main
 import (
 	"encoding/json"
 	"fmt"
+	"os"
 	"regexp"
 	"sort"
 	"strings"
@@ -64,6 +65,7 @@ type c14Cmp struct {
 	s        *amSchema
 	defaults map[string]any             // object name → JSON of the object held by a builder without options
 	covered  map[string]map[string]bool // object name → members some option or constructor argument can write
+	byChoice map[string]map[string]bool // object name → members set by constructor constants of a type that has several builders (nested positions only)
 	root     string
 }
 
@@ -83,6 +85,16 @@ func (k *c14Cmp) cmp(v, b any, t *amType, path string, df any) string {
 		if o.T.K == "struct" {
 			df = k.defaults[o.Name]
 			covered = k.covered[o.Name]
+			if extra := k.byChoice[o.Name]; covered != nil && extra != nil && path != "" {
+				merged := map[string]bool{}
+				for m := range covered {
+					merged[m] = true
+				}
+				for m := range extra {
+					merged[m] = true
+				}
+				covered = merged
+			}
 		}
 		t = o.T
 	}
@@ -205,6 +217,8 @@ func checkC14(r *Run) {
 	}
 	metas := map[string]meta{}
 	covered := map[string]map[string]map[string]bool{}
+	buildersPerObj := map[string]int{}
+	constCov := map[string]map[string]bool{} // members set by constructor constants: reproducible by *choosing* a builder when the type has several
 	var reqs []drvReq
 	for _, cs := range c.Schemas {
 		if !cs.GoOK {
@@ -215,6 +229,20 @@ func checkC14(r *Run) {
 			if base, ok := cs.Docs["Panel"][0].Val.(map[string]any); ok {
 				row := func(t string) any { return map[string]any{"kind": "row", "title": t} }
 				graph := func(n string) any { return map[string]any{"kind": "graph", "name": n} }
+				// nested builders chosen by their constructor constants (several builders for one type)
+				for _, w := range []string{"1.5", "2.5"} {
+					doc := deepCopyJSON(base).(map[string]any)
+					doc["main"] = map[string]any{"name": "a", "on": true, "weight": json.Number(w)}
+					doc["leaf"] = map[string]any{"name": "l", "on": true, "weight": json.Number("2.5")} // every nested value matches some builder
+					delete(doc, "byName")
+					doc["items"] = []any{map[string]any{"name": "b", "on": true, "weight": json.Number(w)}, map[string]any{"name": "c", "on": true, "weight": json.Number("1.5")}}
+					d := amDoc{Obj: "Panel", Val: doc, Label: "nested value matching one builder's constants"}
+					if err := cs.Validator.Validate("Panel", d.JSON()); err == nil {
+						cs.Docs["Panel"] = append(cs.Docs["Panel"], d)
+					} else if os.Getenv("VERIF_DEBUG") != "" {
+						fmt.Println("DEBUG c14 custom doc rejected:", err)
+					}
+				}
 				for _, els := range [][]any{
 					{row("r1"), graph("g1"), row("r2"), graph("g2"), graph("g3"), row("r3")},
 					{graph("g1"), row("r1"), row("r2"), graph("g2")},
@@ -241,6 +269,18 @@ func checkC14(r *Run) {
 			if _, ok := cs.GoConverters[normName(b.Name)]; !ok {
 				r.Count("builders_without_generated_converter", 1)
 				continue
+			}
+			buildersPerObj[cs.ID+"/"+obj.Name]++
+			for _, as := range b.Constructor.Assignments {
+				if len(as.Path) > 0 && as.Value.Constant != nil {
+					if constCov[cs.ID+"/"+obj.Name] == nil {
+						constCov[cs.ID+"/"+obj.Name] = map[string]bool{}
+					}
+					constCov[cs.ID+"/"+obj.Name][as.Path[0].Identifier] = true
+				}
+			}
+			if len(b.Constructor.Args) == 0 {
+				reqs = append(reqs, drvReq{ID: cs.ID + "/builder:" + b.Name + "#bdef", Op: "build", Type: cs.ID + "." + normName(b.Name)})
 			}
 			if !seenObj[obj.Name] {
 				seenObj[obj.Name] = true
@@ -279,6 +319,17 @@ func checkC14(r *Run) {
 				reqs = append(reqs, drvReq{ID: cs.ID + "/" + o.Name + "#new", Op: "default", Type: cs.ID + "." + o.Name})
 			}
 		}
+	}
+	nestedConst := map[string]map[string]map[string]bool{}
+	for key, members := range constCov {
+		if buildersPerObj[key] < 2 {
+			continue
+		}
+		sid, on, _ := strings.Cut(key, "/")
+		if nestedConst[sid] == nil {
+			nestedConst[sid] = map[string]map[string]bool{}
+		}
+		nestedConst[sid][on] = members
 	}
 	resps, err := c.runGo(reqs)
 	if err != nil {
@@ -376,7 +427,18 @@ func checkC14(r *Run) {
 					continue
 				}
 				judged++
-				r.Violation("printed-code-does-not-compile/"+c14MaskDiag(diag), fmt.Sprintf("the code printed by %sConverter for %s does not compile: %s\n%s", m.b.Name, m.doc.JSON(), diag, truncate(sc.Expr, 600)), replay)
+				key := "printed-code-does-not-compile/" + c14MaskDiag(diag)
+				multi := false
+				for on, nb := range buildersPerObj {
+					if strings.HasPrefix(on, m.cs.ID+"/") && nb > 1 {
+						multi = true
+					}
+				}
+				if strings.HasPrefix(diag, "not enough arguments in call to") || multi && strings.HasPrefix(diag, "syntax error") {
+					// root cause: no builder of the nested value's type matches its constants, the argument is left empty
+					key = "printed-code-does-not-compile/nested-builder-argument-left-empty"
+				}
+				r.Violation(key, fmt.Sprintf("the code printed by %sConverter for %s does not compile: %s\n%s", m.b.Name, m.doc.JSON(), diag, truncate(sc.Expr, 600)), replay)
 			}
 			_ = judged
 			continue
@@ -427,10 +489,28 @@ func checkC14(r *Run) {
 			r.Violation("rebuilt-object-fails-validation/"+maskMsg(afterColon(firstLine(bp.BuildErr))), fmt.Sprintf("the input %s passes Validate() but the object rebuilt by the printed code does not: %s\n%s", m.doc.JSON(), bp.BuildErr, truncate(sc.Expr, 600)), replay)
 			continue
 		}
+		if os.Getenv("VERIF_DEBUG") != "" && m.cs.Extra == os.Getenv("VERIF_DEBUG") && strings.Contains(m.doc.Label, "nested value") {
+			fmt.Printf("DEBUG %s %s input=%s\n  code=%s\n  rebuilt=%s\n", m.cs.Format, m.b.Name, truncate(string(rp.Out), 400), truncate(sc.Expr, 900), truncate(string(bp.Out), 400))
+		}
 		v, _ := parseJSONNum(rp.Out)
 		b, _ := parseJSONNum(bp.Out)
-		k := &c14Cmp{s: m.cs.AM, defaults: defaults[m.cs.ID], covered: covered[m.cs.ID], root: m.obj.Name}
-		if d := k.cmp(v, b, m.obj.T, "", defaults[m.cs.ID][m.obj.Name]); d != "" {
+		nestedDefaults := map[string]any{}
+		for on, dv := range defaults[m.cs.ID] {
+			nestedDefaults[on] = dv
+		}
+		k := &c14Cmp{s: m.cs.AM, defaults: nestedDefaults, covered: covered[m.cs.ID], byChoice: nestedConst[m.cs.ID], root: m.obj.Name}
+		// defaults: the converted builder's own default object at the top; for nested objects of a type that has several
+		// builders the default depends on which builder the converter picks, so "the input holds nothing" is not judged there
+		rootDefault := defaults[m.cs.ID][m.obj.Name]
+		if bd, ok := defaults[m.cs.ID]["builder:"+m.b.Name]; ok {
+			rootDefault = bd
+		}
+		for on := range k.defaults {
+			if buildersPerObj[m.cs.ID+"/"+on] > 1 {
+				delete(k.defaults, on)
+			}
+		}
+		if d := k.cmp(v, b, m.obj.T, "", rootDefault); d != "" {
 			kind, rest, _ := strings.Cut(d, "@")
 			p := strings.SplitN(rest, ":", 2)[0]
 			tag := stripDefaults(tagAtPath(m.cs.AM, m.obj.T, p))
@@ -565,8 +645,12 @@ func c14MaskDiag(diag string) string {
 	d = c14ColonTail.ReplaceAllString(d, "")
 	d = strings.ReplaceAll(d, "\"example.com/gen/", "\"")
 	d = regexp.MustCompile(`"s\d+/(pk|cog)"\.`).ReplaceAllString(d, "$1.")
-	if i := strings.Index(d, " in argument to "); i >= 0 {
-		callee := d[i+len(" in argument to "):]
+	marker := " in argument to "
+	if !strings.Contains(d, marker) {
+		marker = " in call to "
+	}
+	if i := strings.Index(d, marker); i >= 0 {
+		callee := d[i+len(marker):]
 		// drop call arguments of the chain, keep its last element
 		var sb strings.Builder
 		depth := 0
@@ -583,7 +667,7 @@ func c14MaskDiag(diag string) string {
 			}
 		}
 		parts := strings.Split(sb.String(), ".")
-		d = d[:i] + " in argument to " + parts[len(parts)-1]
+		d = d[:i] + marker + parts[len(parts)-1]
 	}
 	return truncate(d, 160)
 }
